@@ -18,6 +18,12 @@ Contracts (from the property statement; oracles in oracles/o12_stereo.py, oracle
                  chython molblock (clean2d + SDF writer) read by RDKit == RDKit(str(m)) (tetrahedral part; the layout routine is
                  stereo-blind so cis/trans geometry is not part of this contract); RDKit-drawn molblock (wedges + 2D geometry) read by
                  chython (calc_cis_trans) == original.
+ 5 audit ext.  - (coverage audit; oracles/o12_more.py, bounded/d12_more.py) spellings with atom maps / bond symbols / reader keywords / reaction
+                 SMILES / marks on both digits of a closure / %nn / cumulenes / H-allenes under contract 1; per molecule: add_*_stereo through
+                 every neighbour order, hydrogen slot and call direction, fix_stereo fixpoint, single edits outside transactions with the
+                 configuration RDKit derives after the same edit, one wedge on every bond of a centre (explicit H, allenes with 2-4
+                 substituents) against RDKit / an independent 3D reading, calculate_cis_trans_from_2d against RDKit / a same-side test
+                 (cumulenes), the RDKit bridge; all contracts also on molecules whose atom numbers are descending and with gaps.
 """
 import io
 import itertools
@@ -39,7 +45,14 @@ GENERATED = ['OC(=O)C(O)C(O)C(=O)O', 'CC(O)C(O)C', 'CC(F)C(Cl)C(Br)C=CC', 'CC(F)
              # cumulenes
              'FC(Cl)=C=C(Br)I', 'CC=C=CC', 'FC=C=C=CCl', 'CC(F)C=C=CCl', 'FC=C=C=C=CCl', 'CC=C=C=CC', 'CC(O)C=C=CC(N)C', 'FC=C=CC=CCl',
              # explicit hydrogens
-             '[H]C(F)(Cl)Br', '[H]C(F)=CCl', '[H]C(F)=C([H])Cl', '[H]C(C)(O)C=CC', '[H]C(F)=C=CCl', 'CC([H])(O)C([H])(N)C']
+             '[H]C(F)(Cl)Br', '[H]C(F)=CCl', '[H]C(F)=C([H])Cl', '[H]C(C)(O)C=CC', '[H]C(F)=C=CCl', 'CC([H])(O)C([H])(N)C',
+             # audit: several components, hetero double bonds, isotopes / charges, in-ring cumulenes, allenes with 2-3 substituents and explicit H,
+             # centres surrounded by centres
+             'FC(Cl)Br.O', 'CC(O)CC.CC(N)CC', 'FC=CCl.CC(F)Cl', 'CC=NO', 'CC(F)=NO', 'CN=NC', 'CC=[N+](C)[O-]', '[13CH3]C(C)O', 'C[13CH]=CC',
+             'CC([NH3+])C(=O)[O-]', 'C1CCCCC=C=CCC1', 'CC1CCCC=C=C1', 'FC=C=CCl', 'FC=C=C(Cl)Br', '[H]C(F)=C=C([H])Cl', '[H]C(F)=C=C(Cl)Br',
+             'CC(F)C(C(Cl)C)(C(Br)C)C(O)C', 'CC(F)C(C(Cl)C)C(Br)C', 'FC(Cl)C(F)(Cl)C(F)Cl', 'CC(O)C=C=CC=CC',
+             # audit: pairs of constitutionally equivalent allenes / double bonds (meso-type identities; the group branches of the chiral Morgan)
+             'CC=C=CCCC=C=CC', 'CC=CCCC=CC', 'FC=C=CCC=C=CF', 'CC=C=CC(O)C=C=CC']
 
 
 # ---- helpers -----------------------------------------------------------------------------------------------------------------
@@ -195,7 +208,11 @@ def _allene_wedges(m, out):
     except Exception:
         out.note('clean2d-failed')
         return
-    blk = _molblock(k)
+    try:
+        blk = _molblock(k)
+    except Exception as e:
+        out.v(f'allene-wedge-write:{m}', f'writing the molblock of {m} raises {type(e).__name__}: {e}', witness={'smiles': str(m)})
+        return
     xy, bonds = _v2000(blk)
     nums = list(k)
     wedges = [(nums[i], nums[j], 1 if f == 1 else -1) for i, j, o, f in bonds if f in (1, 6)]
@@ -271,59 +288,122 @@ class _Out:
 def _spellings(chunk):
     from chython import smiles
     from oracles import o12_stereo as O
-    out = _Out()
     res = []
-    for text, fam, form, cls in chunk:
+    for item in chunk:
+        text, fam, form, cls = item[:4]
+        kw = item[4] if len(item) > 4 else {}
+        rdtext = (item[5] if len(item) > 5 else None) or text
         try:
-            m = smiles(text)
+            m = smiles(text, **kw)
+            if '>' in text:     # reaction SMILES: the one molecule that carries the stereo element (halogen atoms)
+                ms = [x for x in m.molecules() if any(a.atomic_symbol in ('F', 'Cl', 'Br', 'I') for _, a in x.atoms())]
+                if len(ms) != 1:
+                    raise RuntimeError(f'generator: {text} has {len(ms)} halogenated molecules')
+                m = ms[0]
             o = str(m)
+        except RuntimeError:
+            raise
         except Exception as e:  # the texts are valid SMILES (RDKit reads them): a rejection is a finding of this contract
-            a = O.rd_can(text)
+            a = O.rd_can(rdtext)
             if a is not None:
                 res.append((text, fam, form, cls, None, a, None, f'{type(e).__name__}: {e}'))
             continue
-        a, b = O.rd_can(text), O.rd_can(o)
+        a, b = O.rd_can(rdtext), O.rd_can(o)
         res.append((text, fam, form, cls, o, a, b, None))
     return res
 
 
 def part1(run):
     from oracles import o12_stereo as O
+    from oracles import o12_more as M
+    quick = run.tier == 'quick'
     items = list(O.tetra_spellings()) + list(O.ct_spellings()) + list(O.allene_spellings()) + \
         [(t, f, 'diene', None) for t, f in O.diene_spellings()]
+    n_first = len({it[0] for it in items})
+    # audit extension (oracles/o12_more.py): reader keywords, atom maps, bond symbols, reactions, two-sided closures, %nn, cumulenes, H-allenes
+    hfirst = {}
+    extra = list(M.tetra_extra()) + list(M.ct_two_sided()) + list(M.ct_variants())
+    for it in M.allene_extra():
+        extra.append(it[:6])
+        hfirst[it[0]] = it[6]
+    extra += [(t, 'RDX', 'rdkit-only', None, {}, None) for t in M.RDX]
+    if quick:   # the option / map / cumulene / %nn variants of the big cross products: every 3rd (seeded offset); thorough: all
+        big = lambda it: it[1][:2] in ('CT', 'CU') or 'maps:' in it[2] or bool(it[4])
+        sel, i = [], 0
+        for it in extra:
+            if big(it):
+                i += 1
+                if i % 3 != env.SEED % 3:
+                    continue
+            sel.append(it)
+        extra = sel
+    items += extra
     seen, uniq = set(), []
     for it in items:
-        if it[0] not in seen:
-            seen.add(it[0])
+        k = (it[0], repr(sorted(it[4].items())) if len(it) > 4 else '[]')
+        if k not in seen:
+            seen.add(k)
             uniq.append(it)
-    run.bound(f'spellings: {len(uniq)} texts = 24 orders x @/@@ x 11 forms (4 substituents; first atom, branch, ring-closure digits '
+    run.bound(f'spellings: {n_first} texts = 24 orders x @/@@ x 11 forms (4 substituents; first atom, branch, ring-closure digits '
               f'incl. two digits and %nn), 6 orders x @/@@ x 15 forms (implicit / explicit H in every position, H first), in-ring '
               f'centres (20 forms), one double bond with 1-2 substituents per end x {{none, /, \\}} on every substituent x forms '
               f'(before atom, branch, ring-closure digit opened/closed on either atom), 48 conjugated dienes, 64 allene spellings')
+    run.bound(f'audit extension: {len(uniq) - n_first} more (text, reader keywords) pairs{" (every 3rd of the large cross products, seeded)" if quick else ""}: '
+              f'the tetrahedral templates with atom maps (descending / gaps / > 999, with and without remap=True), with explicit "-" bond symbols (also on one '
+              f'digit only), under remap / ignore=False / keep_implicit / ignore_carbon_radicals, inside reaction SMILES in every role incl. CXSMILES '
+              f'fragment groups ({len(M.RXN_WRAPS)} wrappers); double bonds with marks on BOTH digits of a ring-closure bond, %nn digits, after / before a dot, '
+              f'in reactions, stretched to cumulenes of 3 double bonds (class oracle only); allenes of 5 cumulated carbons, with an implicit H '
+              f'(spelled FC= only) and with explicit H in every position; {len(M.RDX)} RDKit-judged texts (hetero double bonds, marks behind branches, '
+              f'aromatic substituents, polyenes, large-ring and ring-attached double bonds, charges, isotopes, fused / spiro centres). '
+              f'Contradictory marks (both substituents of one end on the same side, two digits of one closure naming opposite directions) are not generated: '
+              f'the statement assigns them no configuration')
     n = max(1, len(uniq) // (env.NPROC * 2))
     chunks = [uniq[i:i + n] for i in range(0, len(uniq), n)]
     res = [r for part in pmap(_spellings, chunks) for r in part]
+    how = {(it[0], it[2]): {'reader_kw': it[4], 'molecule_text': it[5] or it[0]} for it in uniq if len(it) > 4 and (it[4] or it[5])}
     fails = {}      # (fam, form) -> list of witnesses (CT: the four substituent-count families share the form key)
     classes = {}    # fam -> cls -> {str: text}
     for text, fam, form, cls, o, a, b, err in res:
         nontrivial = ('@' in text or '/' in text or '\\' in text)
-        run.case(1, key=('spelling', text) if nontrivial else None,
+        run.case(1, key=('spelling', text, form) if nontrivial else None,
                  sample={'contract': 'spelling', 'text': text, 'chython': o, 'rdkit': a} if text in ('[C@H](F)(Cl)Br', 'C1(/Cl)=C(Br)/I.F1') else None)
+        fkey = (fam[:2] if fam[:2] in ('CT', 'CU') else fam, form if fam != 'RDX' else text)
         if err is not None:
-            fails.setdefault((fam[:2] if fam.startswith('CT') else fam, form), []).append({'text': text, 'error': err})
+            fails.setdefault(fkey, []).append({'text': text, 'error': err, **how.get((text, form), {})})
             continue
         if a is None:
             raise RuntimeError(f'generator produced a text RDKit rejects: {text}')  # checker bug, not a violation
         if a != b:
-            fails.setdefault((fam[:2] if fam.startswith('CT') else fam, form), []).append(
-                {'text': text, 'chython_str': o, 'rdkit(text)': a, 'rdkit(chython_str)': b})
-        elif fam != 'DIENE':
+            fails.setdefault(fkey, []).append({'text': text, 'chython_str': o, 'rdkit(text)': a, 'rdkit(chython_str)': b, **how.get((text, form), {})})
+        elif fam not in ('DIENE', 'RDX'):
             # explicit-H spellings are another graph (the H is an atom): their own family
-            classes.setdefault(fam + ('+[H]' if '[H]' in text else ''), {}).setdefault(cls, {}).setdefault(o, text)
+            classes.setdefault(fam + ('+[H]' if '[H' in text and not fam.startswith('ALH') else ''), {}).setdefault(cls, {}).setdefault(o, text)
     for (fam, form), w in sorted(fails.items()):
         run.violation(f'spelling:{fam}:{form}', f'{len(w)} spelling(s) of form "{form}" are read/re-written by chython as a different '
                       f'configuration than RDKit derives from the same text, e.g. {w[0]}', witness={'count': len(w), 'texts': w[:12]},
                       native=w[0])
+    # allenes with explicit hydrogens at the ends (ALH2 / ALH3): every spelling against the two reference spellings of its family
+    # (substituents written heavy atom first).  Key: decided by the template alone - does an end START with the explicit hydrogen?
+    groups = {}
+    for fam in sorted(f for f in classes if f.startswith('ALH')):
+        classes.pop(fam)
+        by_text = {t: (c, o) for t, f, _, c, o, a, b, err in res if f == fam and err is None and a == b}
+        refs = {}
+        for t, (c, o) in sorted(by_text.items()):
+            if not hfirst[t]:
+                refs.setdefault(c, set()).add(o)
+        for t, (c, o) in sorted(by_text.items()):
+            run.case(1, key=('class', fam, t))
+            ok = refs.get(c) == {o} and o not in refs.get(1 - c, ())
+            if not ok:
+                groups.setdefault('allene-explicit-H:hydrogen-first' if hfirst[t] else f'allene-explicit-H:{fam}:{t}', []).append(
+                    {'text': t, 'class': c, 'chython_str': o, 'reference_strs_of_class': sorted(refs.get(c, ())),
+                     'reference_strs_of_other_class': sorted(refs.get(1 - c, ()))})
+    for key, w in sorted(groups.items()):
+        if True:
+            run.violation(key, f'{len(w)} spelling(s) of an allene with explicit hydrogens are not read as the configuration the extended tetrahedral '
+                          f'rule assigns (same class <=> same canonical string as the heavy-atom-first reference spelling), e.g. {w[0]}',
+                          witness={'count': len(w), 'texts': w[:12]}, native=w[0])
     # template-derived configuration classes (independent of RDKit; texts already reported above are left out):
     # one canonical string per class, classes disjoint
     for fam, cl in sorted(classes.items()):
@@ -355,7 +435,8 @@ def nonstereogenic_texts():
                         f'{Y}C=[C{k}]=C', f'[C{k}H2]({X}){Y}', f'{Y}[C{k}H2]{Z}', f'{X}[C{k}]({Y})=O', f'{X}[C{k}H]=N']
             for a, b in itertools.product('/\\', repeat=2):
                 out += [f'{Y}{a}C=C({b}{X}){X}', f'{Y}{a}C({Z})=C({b}{X}){X}', f'{X}{a}C({X})=C{b}{Y}', f'C({a}{X})({X})=C{b}{Y}', f'{Y}{a}C=C',
-                        f'{Y}{a}C=C1{b}CCCCC1', f'{Y}{a}C=C=C=C({b}{X}){X}', f'{Y}{a}C#C{b}{Z}', f'{Y}{a}C{b}{Z}']
+                        f'{Y}{a}C=C1{b}CCCCC1', f'{Y}{a}C=C=C=C({b}{X}){X}', f'{Y}{a}C#C{b}{Z}', f'{Y}{a}C{b}{Z}',
+                        f'{Y}{a}C=C=C{b}{Z}', f'{Y}{a}C({X})=C=C{b}{Z}', f'{Y}{a}C=C=C=C=C{b}{Z}', f'C{a}1=C({b}{X}){X}.{Y}1', f'{Y}{a}C=C%10{b}{X}.{X}%10']
     return sorted(set(out))
 
 
@@ -527,6 +608,7 @@ def _molecule(arg):
         if isinstance(v[2], dict):
             v[2].setdefault('input', arg[0])
             v[2].setdefault('wedge_contracts', arg[2])
+            v[2].setdefault('source', arg[1])
     return res
 
 
@@ -544,6 +626,11 @@ def _molecule_(arg):
     out = _Out()
     r = D.rnd('c12:' + s)
     m = D.parse(s)
+    if source == 'renum':    # audit: atom numbers descending and with gaps (dict order unchanged; the MOL writer refuses numbers > 999)
+        m.remap({n: 990 - 7 * i for i, n in enumerate(list(m))})
+    ext = source in ('generated', 'renum', 'corpus+')
+    if ext:
+        from bounded import d12_more as X
     base = _strip(m)
     skel = str(base)
     E = _elements(base)
@@ -626,23 +713,51 @@ def _molecule_(arg):
                 if ref is None:
                     out.note('rdkit-rejects-chython-str')
                     continue
-                for spec in ('r', 'r', 'r', 'h', 'a', 'A', 'm'):
+                for spec in ('r', 'r', 'r', 'h', 'a', 'A', 'm') + (('ra', 'rh', 'rAm', 'ah', 'ra') if ext else ()):
                     x = format(c, spec)
-                    out.case(1, key=('writer', x) if spec == 'r' else None)
+                    out.case(1, key=('writer', x) if 'r' in spec else None)
                     if O.rd_can(x, legacy=False) != ref:
                         out.v(f'writer-spelling:{strs[L]}:{spec}', f'format(m, "{spec}") = {x} denotes another molecule than str(m) = {strs[L]} (RDKit)',
                               witness={'smiles': strs[L], 'spec': spec, 'written': x}, native={'rdkit(written)': O.rd_can(x, legacy=False), 'rdkit(str)': ref})
                         break
             _sign_contracts(mols[Ls[-1]], E, Ls[-1], skel, out)
             _sign_contracts(mols[Ls[0]], E, Ls[0], skel, out)
+            if ext and source != 'corpus+':
+                for L in (Ls[0], Ls[-1]):
+                    c = mols[L]
+                    X.bridge(c, out)
+                    kk = c.copy()
+                    kk.kekule()
+                    if X.drawable(kk) and X.rd_coords(kk):
+                        X.wedge_write(kk, c, out)
         elif strs:
             _sign_contracts(mols[Ls[0]], E, Ls[0], skel, out)   # sign algebra does not depend on the domain filter
+
+    # audit extension: the API through every neighbour order; drawings of the stereo-free molecule -----------------------------------
+    if ext and E and k <= 8:
+        X.api_contracts(base, E, skel, out, r, full=source != 'corpus+')
+        kb = base.copy()
+        kb.kekule()
+        if X.drawable(kb) and X.rd_coords(kb, stereo=False):
+            X.wedge_read(kb, skel, out, limit=3 if source != 'corpus+' else 2)
+            X.ct_from_2d(kb, skel, out)
+        else:
+            out.note('drawing-skipped')
 
     # the molecule as given (its own labels) ------------------------------------------------------------------------------------------
     if _n_labels(m):
         if _gap1(m, iso.orbits(m)):
             out.gaps += 1
         else:
+            from bounded import d12_more as X
+            X.fixpoint_contract(m, out)
+            if ext:
+                X.edit_contracts2(m, str(m), r, out)
+                X.bridge(m, out)
+                kk = m.copy()
+                kk.kekule()
+                if X.drawable(kk) and X.rd_coords(kk):
+                    X.wedge_write(kk, m, out)
             _edit_contracts(m, str(m), orb, r, out)
             if do_wedge:
                 _allene_wedges(m, out)
@@ -657,7 +772,12 @@ def _molecule_(arg):
                     ok2d = False
                     out.note('clean2d-failed')
                 if ok2d and any(a.stereo is not None for _, a in m.atoms()):
-                    blk = _molblock(kk)
+                    try:
+                        blk = _molblock(kk)
+                    except Exception as e:
+                        out.v(f'wedge-write:{m}', f'writing the molblock of {m} raises {type(e).__name__}: {e}', witness={'smiles': str(m)})
+                        blk = None
+                if ok2d and any(a.stereo is not None for _, a in m.atoms()) and blk is not None:
                     rm = Chem.MolFromMolBlock(blk)
                     out.case(1, key=('wedge-write', str(m)), sample={'contract': 'wedge write', 'smiles': str(m)})
                     got = None if rm is None else _rd_tetra_only(rm)
@@ -688,7 +808,15 @@ def _generated_labelled():
             'C[C@H](F)/C=C/C', 'F/C=C(/Cl)Br', 'C[C@]1(O)CCCO1', 'OC[C@H]1O[C@@H](O)[C@H](O)[C@@H](O)[C@@H]1O', 'C[C@H]1C[C@@H]2CC[C@H]1C2',
             'FC(Cl)=[C@]=C(Br)I', 'C[C@H](N)C(=O)N[C@@H](CO)C(=O)O', 'O1CCC[C@]12CCCN2', 'C[C@H]1CCC/C(=C\\C)C1',
             'FC(Cl)=[C@@]=C(Br)I', 'CC(O)=[C@]=C(N)Cl', 'CC(O)=[C@@]=C(N)Cl', 'ClC(F)=[C@]=C(I)Br', 'CCC(C)=[C@]=C(C)N', 'FC(Cl)=C=[C@]=C=C(Br)I',
-            'FC(Cl)=C=[C@@]=C=C(Br)I', 'OC(C)=[C@@]=C(CC)Cl', 'CC(=[C@]=C(F)Cl)CC']
+            'FC(Cl)=C=[C@@]=C=C(Br)I', 'OC(C)=[C@@]=C(CC)Cl', 'CC(=[C@]=C(F)Cl)CC',
+            # audit: explicit hydrogens on centres / allene ends, allenes with 2-3 substituents, centres whose neighbours are all centres,
+            # cis/trans + allene ends with two terminal substituents (edit contracts), cumulene cis/trans, components
+            '[H][C@](F)(Cl)Br', 'C[C@]([H])(O)CC', 'C[C@@]([H])(O)[C@]([H])(N)CC', 'FC=[C@]=CCl', 'FC=[C@@]=C(Cl)Br', '[H]C(F)=[C@]=C([H])Cl',
+            '[H]C(F)=[C@@]=C(Cl)Br', 'C[C@H](F)[C@]([C@H](Cl)C)([C@@H](Br)C)[C@H](O)C', 'C[C@H](F)[C@H]([C@H](Cl)C)[C@@H](Br)C',
+            'F[C@H](Cl)[C@](F)(Cl)[C@@H](F)Cl', 'F/C(Cl)=C(/Br)I', 'F/C(Cl)=C/Br', 'F/C(Cl)=C=C=C(/Br)I', 'F/C=C=C=C/Cl', 'F[C@H](Cl)Br.O',
+            'C[C@H](O)CC.C[C@@H](N)CC', 'C/C=N/O', 'C[C@H]([13CH3])O', 'C[C@H](O)/C=C/[C@@H](N)C', 'C[C@@H]1CCC[C@@H](C1)/C=C/C',
+            # audit: the heaviest acyclic substituent (the one _wedge_map draws the wedge to) in each of the four allene slots
+            'IC(Cl)=[C@]=C(F)Br', 'FC(Cl)=[C@]=C(I)Br', 'FC(I)=[C@]=C(Cl)Br', 'FC(Cl)=[C@@]=C(Br)I', 'FC(Br)=[C@]=CCl', 'FC=[C@@]=C(C)Br']
 
 
 def bounded(run):
@@ -725,16 +853,24 @@ def bounded(run):
     corpus = D.corpus_sample(ncorp, 'c12')
     nwedge = 400 if quick else 1500
     items = [(s, 'generated', True) for s in GENERATED + _generated_labelled()]
+    items += [(s, 'renum', True) for s in GENERATED + _generated_labelled()]
     w = 0
+    nplus = 150 if quick else 600
     for s in corpus:
         has = '@' in s or '/' in s or '\\' in s
-        items.append((s, 'corpus', has and w < nwedge))
+        items.append((s, 'corpus+' if has and w < nplus else 'corpus', has and w < nwedge))
         w += has
     run.bound(f'molecules: {len(GENERATED) + len(_generated_labelled())} generated chain / ring / ring-linker / cumulene / explicit-H cases + '
               f'{len(corpus)} corpus molecules (seeded sample); <= 8 stereo elements; all 2^k labelings for k <= 4, 12+ seeded labelings '
               f'(with mirror images and single E/Z changes) above; <= 4000 automorphisms; 7 written spellings of <= 4 labelings each; '
               f'all 24 / 6 neighbour permutations (+ 3-prefixes, + explicit H in every position) of every labelled centre in 2 labelings; '
               f'<= 3 edited centres x 3 edits per labelled molecule; wedge write/read on <= {nwedge} labelled corpus molecules')
+    run.bound(f'audit extension (bounded/d12_more.py) on the generated molecules, on the same molecules renumbered 990, 983, ... (descending, gaps; numbers > 999 only through atom maps in part 1: the MOL writer refuses them) '
+              f'and on the first {nplus} labelled corpus molecules: add_*_stereo through all 24+24 / 6 neighbour orders (corpus: 12 seeded), every '
+              f'substituent / hydrogen pair and both call directions; <= 2 centres x 6 single edits outside a transaction, <= 2 double-bond / allene ends x '
+              f'2 replacements; one wedge / hash / wrong-end wedge on every bond of <= 3 possible centres and every substituent of <= 3 allenes on RDKit '
+              f'coordinates; cis/trans from 2D on the RDKit layout and with one end mirrored; _wedge_map on RDKit coordinates; RDKit bridge; 5 more writer '
+              f'option combinations (ra, rh, rAm, ah); fix_stereo fixpoint on every labelled molecule')
     shown = set()
     for nc, keys, samples, viol, g, nt in pmap(_molecule, items, chunksize=4):
         run.cases += nc
@@ -765,16 +901,17 @@ def replay(rec):
     if key.startswith('spelling:'):
         ok = True
         for t in w.get('texts', []):
-            text = t['text']
-            try:
-                o = str(smiles(text))
-            except Exception as e:
-                print(text, '->', repr(e))
-                ok = False
-                continue
-            a, b = O.rd_can(text), O.rd_can(o)
-            print(text, '->', o, '| rdkit(text)', a, '| rdkit(chython)', b)
-            ok &= a == b
+            res = _spellings([(t['text'], '', '', None, t.get('reader_kw') or {}, t.get('molecule_text'))])
+            for text, _, _, _, o, a, b, err in res:
+                print(text, t.get('reader_kw') or '', '->', o, '| rdkit(text)', a, '| rdkit(chython)', b, err or '')
+                ok &= err is None and a == b
+        return ok
+    if key.startswith('allene-explicit-H:'):
+        ok = True
+        for t in w.get('texts', []):
+            o = str(smiles(t['text']))
+            print(t['text'], '->', o, '| reference spellings of its class give', t['reference_strs_of_class'], '| of the other class', t['reference_strs_of_other_class'])
+            ok &= [o] == t['reference_strs_of_class'] and o not in t['reference_strs_of_other_class']
         return ok
     if key.startswith('nonstereogenic-label-kept:'):
         m = smiles(w['text'])
@@ -782,7 +919,7 @@ def replay(rec):
         return not _n_labels(m)
     if rec.get('seed') is not None:
         env.SEED = rec['seed']
-    res = _molecule((w.get('input') or w.get('smiles') or '', 'replay', w.get('wedge_contracts', True)))
+    res = _molecule((w.get('input') or w.get('smiles') or '', w.get('source') or 'replay', w.get('wedge_contracts', True)))
     bad = [v for v in res[3] if v[0] == key]
     for v in bad:
         print(v[1])
